@@ -2,6 +2,7 @@ package rules
 
 import (
 	"fmt"
+	"go/constant"
 	"go/token"
 	"go/types"
 	"reflect"
@@ -20,8 +21,8 @@ func init() {
 		Expl: "Decides the structural form of the invariant 'the in-memory policy is a pure function of the policy file': " +
 			"(R1) over ALL stores of the production program into a policy.Policy object: each one initialises a freshly allocated object, or is the whole-object overwrite with the value just parsed from the file, or restores the path field with the value it had before that overwrite; no mutator edits a field in place, and every success return after the overwrite has the path restored; " +
 			"(R2) over ALL methods of *Policy that reach a file write: every file write is dominated by policy.mu.Lock, by the pubkey validator passing on the very parameter that is written (validator = anchored regexp over the whole string, decided by interpreting the pattern constant on probe strings) and, for additions, by the not-already-present test on the list the written ini key belongs to; every path from a successful write to a return reloads the file first, the reload error is not dropped, and a nil return that wrote nothing is justified by a dominating test that memory already equals the written value; " +
-			"(R3) the ini lines: every written key is the ini name of a Policy field of the matching type, the line appended and the line removed for the same key have the same format, and the two toggles write/remove each other's lines; " +
-			"(R4) every non-mutating method of the swap.Policy interface (and Get) computes its result only from the live fields of its receiver. The quantifier is over all stores, all mutators, all their CFG paths and all written lines, i.e. over all sequences of operations.",
+			"(R3) the ini lines: every written key is the ini name of a Policy field of the matching type, the line appended and the line removed for the same key have the same format, and the two toggles write/remove each other's lines; the rewrite helper copies a scanned line into the new file only on the edge `line != argument` (directly, or through a generic filter whose predicate closure is exactly that comparison), so every copy of the target line is dropped and the match is on the whole `key=value` line; a remove-mutator that hands the helper the bare parameter while no ini key is known to the helper is reported; " +
+			"Guards, the lock and the reload are also recognised when they sit in an in-module helper whose tested outcome implies them, or (lock, fresh-object initialisers, path restore) in every caller of an unexported function; shapes that are not interpreted end as undecided, never as a violation. (R4) every non-mutating method of the swap.Policy interface (and Get) computes its result only from the live fields of its receiver. The quantifier is over all stores, all mutators, all their CFG paths and all written lines, i.e. over all sequences of operations.",
 		NotD: "Semantics of the go-flags ini parser (sections, `key = value` spelling, last-wins for repeated scalar keys), a pre-existing file without trailing newline, file-system atomicity and I/O failures between the two writes of a toggle, in-place mutation of a list through a library call or through the slices returned by Get(), whether the lock is held by readers (owned by C19; listed as info under R4).",
 		Run:  runC25,
 	})
@@ -40,7 +41,9 @@ type c25ctx struct {
 	polSt *types.Struct
 	mu    *ssa.Global
 	// ini key -> field index
-	iniKey map[string]int
+	iniKey  map[string]int
+	callers map[*ssa.Function][]ssa.CallInstruction
+	acq     map[*ssa.Function]bool
 }
 
 func runC25(c *an.Check) {
@@ -286,6 +289,228 @@ func c25InLoop(b *ssa.BasicBlock) bool { return an.ReachBlocks(b.Succs, nil, nil
 
 // ---- R1 -------------------------------------------------------------------------------
 
+type c25restore struct {
+	st   *ssa.Store
+	base ssa.Value
+	load ssa.Instruction
+}
+
+func c25exported(fn *ssa.Function) bool { return fn.Object() != nil && fn.Object().Exported() }
+
+// c25root strips loads/field selections down to the base value.
+func c25root(v ssa.Value) ssa.Value {
+	for {
+		switch y := v.(type) {
+		case *ssa.UnOp:
+			if y.Op == token.MUL {
+				v = y.X
+				continue
+			}
+		case *ssa.FieldAddr:
+			v = y.X
+			continue
+		case *ssa.Field:
+			v = y.X
+			continue
+		}
+		return v
+	}
+}
+
+// staticCallers lists the production call sites whose static callee is fn.
+func (x *c25ctx) staticCallers(fn *ssa.Function) []ssa.CallInstruction {
+	if x.callers == nil {
+		x.callers = map[*ssa.Function][]ssa.CallInstruction{}
+		for _, g := range prodFuncs(x.w) {
+			for _, ci := range an.Calls(g) {
+				if f := x.w.Info(ci).Static; f != nil && x.w.InModule(f) {
+					x.callers[f] = append(x.callers[f], ci)
+				}
+			}
+		}
+	}
+	return x.callers[fn]
+}
+
+// liveness decides whether a *Policy value is a freshly allocated object
+// ("fresh"), the published object ("live") or neither can be established.
+func (x *c25ctx) liveness(v ssa.Value, depth int) (string, string) {
+	if x.fresh(v) {
+		return "fresh", "allocated on the way"
+	}
+	if depth > 3 {
+		return "unknown", "call chain too deep"
+	}
+	switch y := v.(type) {
+	case *ssa.Parameter:
+		fn := y.Parent()
+		idx := -1
+		for i, p := range fn.Params {
+			if p == y {
+				idx = i
+			}
+		}
+		if fn.Parent() != nil || idx < 0 {
+			return "unknown", "parameter of a closure"
+		}
+		if c25exported(fn) && (fn.Signature.Recv() == nil || x.w.FnRel(fn) == "policy") && fn.Signature.Recv() != nil && idx == 0 {
+			return "live", "receiver of the exported method " + x.w.FuncName(fn)
+		}
+		sites := x.staticCallers(fn)
+		if len(sites) == 0 {
+			if c25exported(fn) {
+				return "live", "parameter of the exported function " + x.w.FuncName(fn) + " that any caller can hand the published policy"
+			}
+			return "unknown", x.w.FuncName(fn) + " has no static caller"
+		}
+		allFresh := true
+		for _, s := range sites {
+			if idx >= len(s.Common().Args) {
+				return "unknown", "argument not found at a call of " + x.w.FuncName(fn)
+			}
+			l, why := x.liveness(s.Common().Args[idx], depth+1)
+			if l == "live" {
+				return "live", "called from " + x.w.FuncName(s.Parent()) + " with " + why
+			}
+			if l != "fresh" {
+				allFresh = false
+			}
+		}
+		if allFresh {
+			return "fresh", "every caller passes a fresh object"
+		}
+		return "unknown", "some caller of " + x.w.FuncName(fn) + " passes an object of unknown origin"
+	case *ssa.UnOp:
+		if y.Op == token.MUL {
+			switch y.X.(type) {
+			case *ssa.FieldAddr, *ssa.Global:
+				return "live", "the pointer is read from a field or package variable: " + x.w.Term(v)
+			}
+		}
+	case *ssa.Phi:
+		res := "fresh"
+		for _, e := range y.Edges {
+			l, why := x.liveness(e, depth+1)
+			if l == "live" {
+				return l, why
+			}
+			if l != "fresh" {
+				res = "unknown"
+			}
+		}
+		return res, "phi"
+	}
+	return "unknown", "origin of " + x.w.Term(v) + " not understood"
+}
+
+// parsedHere: the fresh pointer is handed to a call in fn and fn itself runs the ini parser
+// (create inlined into the overwriting function).
+func (x *c25ctx) parsedHere(fn *ssa.Function, ptr ssa.Value) bool {
+	parses := false
+	for _, e := range x.w.Summary(fn).Effects {
+		if strings.HasSuffix(e.Name, "go-flags.IniParser).Parse") {
+			parses = true
+		}
+	}
+	return parses && x.escapesToCall(ptr)
+}
+
+func (x *c25ctx) escapesToCall(ptr ssa.Value) bool {
+	if ptr.Referrers() == nil {
+		return false
+	}
+	for _, ref := range *ptr.Referrers() {
+		switch y := ref.(type) {
+		case ssa.CallInstruction:
+			return true
+		case *ssa.MakeInterface:
+			if y.Referrers() != nil {
+				for _, r2 := range *y.Referrers() {
+					if _, ok := r2.(ssa.CallInstruction); ok {
+						return true
+					}
+				}
+			}
+		}
+	}
+	return false
+}
+
+// pathLostVerdict: fn returns success with an empty path. That is a violation
+// when fn is an entry point (exported) or when some caller chain up to an entry
+// point does not restore the path; "ok" when every caller restores it.
+func (x *c25ctx) pathLostVerdict(fn *ssa.Function, restores map[*ssa.Function][]c25restore, over map[*ssa.Function]*c25overwrite, depth int) (string, string) {
+	if c25exported(fn) {
+		return "bad", "exported function " + x.w.FuncName(fn)
+	}
+	if depth > 3 {
+		return "unknown", "call chain too deep"
+	}
+	sites := x.staticCallers(fn)
+	if len(sites) == 0 {
+		return "unknown", x.w.FuncName(fn) + " is unexported and has no static caller"
+	}
+	res, why := "ok", "callers of "+x.w.FuncName(fn)+" restore the path"
+	for _, s := range sites {
+		caller := s.Parent()
+		call, isCall := s.(*ssa.Call)
+		if !isCall || len(s.Common().Args) == 0 {
+			return "unknown", "deferred or asynchronous call of " + x.w.FuncName(fn)
+		}
+		base := s.Common().Args[0]
+		stop := map[*ssa.BasicBlock]bool{}
+		same := false
+		for _, rs := range restores[caller] {
+			if rs.base == base && !c25After(s, rs.load) {
+				if rs.st.Block() == s.Block() && an.InstrIndex(rs.st) > an.InstrIndex(s) {
+					same = true
+				}
+				stop[rs.st.Block()] = true
+			}
+		}
+		if same {
+			continue
+		}
+		okE, _ := an.OkEdges(call)
+		var start []*ssa.BasicBlock
+		for _, e := range okE {
+			start = append(start, e.To())
+		}
+		if len(okE) == 0 {
+			start = s.Block().Succs
+		}
+		reach := an.ReachBlocks(start, nil, stop)
+		if len(okE) == 0 {
+			reach[s.Block()] = true
+		}
+		lost := false
+		for _, r := range c25Returns(caller) {
+			if !reach[r.Block()] || stop[r.Block()] {
+				continue
+			}
+			for _, v := range c25RetVals(r, len(r.Results)-1) {
+				if an.IsNilConst(v) || v == ssa.Value(call) {
+					lost = true
+				}
+			}
+			if len(r.Results) == 0 {
+				lost = true
+			}
+		}
+		if !lost {
+			continue
+		}
+		v, w2 := x.pathLostVerdict(caller, restores, over, depth+1)
+		if v == "bad" {
+			return "bad", "reached without a restore from " + w2
+		}
+		if v != "ok" {
+			res, why = "unknown", w2
+		}
+	}
+	return res, why
+}
+
 type c25overwrite struct {
 	fn         *ssa.Function
 	store      *ssa.Store
@@ -300,12 +525,9 @@ func (x *c25ctx) r1() map[*ssa.Function]*c25overwrite {
 		return nil
 	}
 	over := map[*ssa.Function]*c25overwrite{}
-	type restore struct {
-		st   *ssa.Store
-		base ssa.Value
-		load ssa.Instruction
-	}
+	type restore = c25restore
 	restores := map[*ssa.Function][]restore{}
+	restoreBases := func(m map[*ssa.Function][]restore) map[*ssa.Function][]c25restore { return m }
 	nInit, nOver, nRestore := 0, 0, 0
 	for _, fn := range prodFuncs(w) {
 		for _, b := range fn.Blocks {
@@ -333,10 +555,25 @@ func (x *c25ctx) r1() map[*ssa.Function]*c25overwrite {
 							continue // decided below, once the overwrite calls are known
 						}
 					}
-					c.Bad("C25.R1", cons, pos, "a field of the live policy object is edited in place: memory stops being a function of the policy file (a failing or skipped file write, or the next reload, makes them disagree). Value: "+w.Term(st.Val))
+					switch live, why := x.liveness(a.X, 0); live {
+					case "fresh":
+						nInit++
+						c.OK("C25.R1", cons, pos, "initialises a policy object that every caller has just allocated")
+					case "live":
+						c.Bad("C25.R1", cons, pos, "a field of the live policy object is edited in place ("+why+"): memory stops being a function of the policy file (a failing or skipped file write, or the next reload, makes them disagree). Value: "+w.Term(st.Val))
+					default:
+						c.Unknown("C25.R1", cons, pos, "a field of a policy object is written and it cannot be decided whether that object is the published one or a fresh one ("+why+")")
+					}
 				case *ssa.IndexAddr:
 					if lb, lf, _ := x.polFieldLoad(a.X); lb != nil && !x.fresh(lb) {
-						c.Bad("C25.R1", w.FuncName(fn)+" store element of Policy."+x.polSt.Field(lf).Name(), pos, "an element of a list of the live policy object is overwritten in place")
+						cons := w.FuncName(fn) + " store element of Policy." + x.polSt.Field(lf).Name()
+						switch live, why := x.liveness(lb, 0); live {
+						case "fresh":
+						case "live":
+							c.Bad("C25.R1", cons, pos, "an element of a list of the live policy object is overwritten in place ("+why+")")
+						default:
+							c.Unknown("C25.R1", cons, pos, "an element of a list of a policy object is overwritten; cannot decide whether the object is the published one ("+why+")")
+						}
 					}
 				default:
 					if !x.isPolPtr(st.Addr.Type()) || !x.isPolVal(st.Val.Type()) {
@@ -349,7 +586,7 @@ func (x *c25ctx) r1() map[*ssa.Function]*c25overwrite {
 						continue
 					}
 					ld, isLd := st.Val.(*ssa.UnOp)
-					if isLd && ld.Op == token.MUL && x.fresh(ld.X) && x.parsedFromFile(ld.X) {
+					if isLd && ld.Op == token.MUL && x.fresh(ld.X) && (x.parsedFromFile(ld.X) || x.parsedHere(fn, ld.X)) {
 						nOver++
 						ow := &c25overwrite{fn: fn, store: st}
 						// does the parsed object get the old path first?
@@ -374,12 +611,21 @@ func (x *c25ctx) r1() map[*ssa.Function]*c25overwrite {
 						c.OK("C25.R1", cons, pos, "whole-object overwrite with the policy freshly parsed from the file")
 						continue
 					}
-					c.Bad("C25.R1", cons, pos, "the live policy object is overwritten with a value that is not the freshly parsed file: "+w.Term(st.Val))
+					if live, why := x.liveness(st.Addr, 0); live == "fresh" {
+						nInit++
+						c.OK("C25.R1", cons, pos, "copies into a policy object that every caller has just allocated")
+					} else if isLd && ld.Op == token.MUL && x.fresh(ld.X) && !x.escapesToCall(ld.X) && live == "live" {
+						c.Bad("C25.R1", cons, pos, "the live policy object is overwritten with a freshly built value that never went through the ini parser: "+w.Term(st.Val))
+					} else if _, isAlloc := c25root(st.Val).(*ssa.Alloc); isAlloc && live == "live" {
+						c.Bad("C25.R1", cons, pos, "the live policy object is overwritten with a locally composed value, not with the parsed file: "+w.Term(st.Val))
+					} else {
+						c.Unknown("C25.R1", cons, pos, "a policy object is overwritten as a whole and it cannot be decided that the value is the freshly parsed file ("+why+"): "+w.Term(st.Val))
+					}
 				}
 			}
 		}
 	}
-	c.AtLeast("C25.R1", "initialising stores into fresh Policy objects", nInit, 7)
+	c.AtLeast("C25.R1", "initialising stores into fresh Policy objects", nInit, 3)
 	if !c.AtLeast("C25.R1", "whole-object overwrites with the parsed file", nOver, 1) {
 		return over
 	}
@@ -400,20 +646,25 @@ func (x *c25ctx) r1() map[*ssa.Function]*c25overwrite {
 		// restores: the restored value must have been read before any overwrite
 		for _, rs := range restores[fn] {
 			cons := w.FuncName(fn) + " store Policy.path"
-			okRestore := len(ocs) > 0
+			around, stale := false, false
 			for _, oc := range ocs {
 				if len(oc.Call.Args) == 0 || oc.Call.Args[0] != rs.base {
-					okRestore = false
+					continue
 				}
 				if c25After(oc, rs.load) {
-					okRestore = false // reads the already overwritten (empty) path
+					stale = true // reads the already overwritten (empty) path
+				} else {
+					around = true
 				}
 			}
-			if okRestore {
+			switch {
+			case stale:
+				c.Bad("C25.R1", cons, w.Pos(rs.st.Pos()), "path is assigned from the object's own path field read after the whole-object overwrite: it restores the empty path")
+			case around:
 				nRestore++
 				c.OK("C25.R1", cons, w.Pos(rs.st.Pos()), "restores the path read before the overwrite")
-			} else {
-				c.Bad("C25.R1", cons, w.Pos(rs.st.Pos()), "path is assigned from the object's own path field but not as a restore around the whole-object overwrite (the value is read after the overwrite, or there is no overwrite here)")
+			default:
+				c.OK("C25.R1", cons, w.Pos(rs.st.Pos()), "assigns the object's own path to itself (no overwrite of this object in between)")
 			}
 		}
 		for _, oc := range ocs {
@@ -475,7 +726,16 @@ func (x *c25ctx) r1() map[*ssa.Function]*c25overwrite {
 				}
 				if isNil || direct || c25ReportErrorPathAsViolation {
 					good = false
-					c.Bad("C25.R1", cons, w.Pos(r.Pos()), "a return reached after the policy object was overwritten by the parsed file leaves `path` empty: every later mutation and reload answers 'no policy file given', so changes are no longer written and reloads no longer apply")
+					verdict, why := x.pathLostVerdict(fn, restoreBases(restores), over, 0)
+					msg := "a return reached after the policy object was overwritten by the parsed file leaves `path` empty: every later mutation and reload answers 'no policy file given', so changes are no longer written and reloads no longer apply (" + why + ")"
+					switch verdict {
+					case "bad":
+						c.Bad("C25.R1", cons, w.Pos(r.Pos()), msg)
+					case "ok":
+						c.OK("C25.R1", cons, w.Pos(r.Pos()), "path is empty on this return but every caller restores it: "+why)
+					default:
+						c.Unknown("C25.R1", cons, w.Pos(r.Pos()), "cannot decide: "+msg)
+					}
 				} else {
 					c.Note("C25.R1", cons+" error return without restore", w.Pos(r.Pos()), "an error return between the overwrite and the path restore leaves path empty (needs open(2) to fail after the first open succeeded; environment fault, outside the property's quantifier): "+w.Term(c25RetVals(r, idx)[0]))
 				}
@@ -490,6 +750,207 @@ func (x *c25ctx) r1() map[*ssa.Function]*c25overwrite {
 	return over
 }
 
+// ---- facts through helpers ---------------------------------------------------------------
+
+// c25dfact is a fact that holds at some instruction, possibly established inside a
+// helper whose outcome is tested there; bind maps a value of the fact's own
+// function to the corresponding value of the function the query was made in
+// (parameters are replaced by the call's arguments).
+type c25dfact struct {
+	f    an.Fact
+	bind func(ssa.Value) ssa.Value
+}
+
+func c25ident(v ssa.Value) ssa.Value { return v }
+
+// c25retCase is one way a result can be produced: the value and the place
+// (block, and for a phi the incoming edge) under which it is produced.
+type c25retCase struct {
+	val  ssa.Value
+	at   *ssa.BasicBlock // facts dominating this block hold
+	edge *an.Edge        // additionally the fact on this edge
+}
+
+// c25retCases expands result #idx of every reachable return of f through the
+// defer spill and through phis.
+func c25retCases(f *ssa.Function, idx int) []c25retCase {
+	var out []c25retCase
+	for _, r := range c25Returns(f) {
+		if idx >= len(r.Results) {
+			continue
+		}
+		for _, v := range c25RetVals(r, idx) {
+			out = append(out, c25expandPhi(v, r.Block(), nil, 0)...)
+		}
+	}
+	return out
+}
+
+func c25expandPhi(v ssa.Value, at *ssa.BasicBlock, edge *an.Edge, depth int) []c25retCase {
+	phi, ok := v.(*ssa.Phi)
+	if !ok || depth > 3 {
+		return []c25retCase{{v, at, edge}}
+	}
+	var out []c25retCase
+	for i, e := range phi.Edges {
+		pred := phi.Block().Preds[i]
+		var ed *an.Edge
+		for j, sc := range pred.Succs {
+			if sc == phi.Block() {
+				ed = &an.Edge{From: pred, Idx: j}
+			}
+		}
+		out = append(out, c25expandPhi(e, pred, ed, depth+1)...)
+	}
+	return out
+}
+
+// factsAtCase: the facts of the function that hold when the case is taken.
+func (x *c25ctx) factsAtCase(f *ssa.Function, rc c25retCase) []an.Fact {
+	var out []an.Fact
+	for _, fa := range x.w.Facts(f) {
+		if rc.edge != nil && fa.Edge == *rc.edge {
+			out = append(out, fa)
+			continue
+		}
+		if fa.Edge.From != rc.at && an.EdgeDominates(fa.Edge, rc.at) {
+			out = append(out, fa)
+		}
+	}
+	return out
+}
+
+// mayBe: can the value be `want` ("nil", "true", "false") in the given case?
+func (x *c25ctx) mayBe(f *ssa.Function, rc c25retCase, want string) bool {
+	v := rc.val
+	switch y := v.(type) {
+	case *ssa.Const:
+		switch want {
+		case "nil":
+			return y.Value == nil
+		default:
+			return y.Value != nil && y.Value.String() == want
+		}
+	case *ssa.MakeInterface:
+		return want != "nil" // a concrete error value is never the nil interface
+	case *ssa.UnOp:
+		if _, isG := y.X.(*ssa.Global); isG && y.Op == token.MUL && want == "nil" {
+			return false // package-level sentinel error
+		}
+	case *ssa.Call:
+		if n := x.w.Info(y).Name; want == "nil" && (n == "func:errors.New" || n == "func:fmt.Errorf") {
+			return false
+		}
+	}
+	if want == "nil" {
+		// `if err != nil { return err }`
+		t := x.w.Term(v)
+		for _, fa := range x.factsAtCase(f, rc) {
+			if fa.NonNum && fa.Rel == "!=" && ((fa.L == "nil" && fa.R == t) || (fa.R == "nil" && fa.L == t)) {
+				return false
+			}
+		}
+	}
+	return true
+}
+
+// impliedBy: the facts of helper h that hold whenever its result #idx is `want`.
+func (x *c25ctx) impliedBy(h *ssa.Function, idx int, want string) []an.Fact {
+	var keep []an.Fact
+	first := true
+	for _, rc := range c25retCases(h, idx) {
+		if !x.mayBe(h, rc, want) {
+			continue
+		}
+		fs := x.factsAtCase(h, rc)
+		if first {
+			keep, first = fs, false
+			continue
+		}
+		var nk []an.Fact
+		for _, k := range keep {
+			for _, g := range fs {
+				if g.Edge == k.Edge {
+					nk = append(nk, k)
+					break
+				}
+			}
+		}
+		keep = nk
+	}
+	return keep
+}
+
+// helperOutcome: the fact tests the outcome of an in-module helper call.
+func (x *c25ctx) helperOutcome(f an.Fact) (call *ssa.Call, idx int, want string) {
+	asCall := func(v ssa.Value) (*ssa.Call, int) {
+		switch y := v.(type) {
+		case *ssa.Call:
+			return y, 0
+		case *ssa.Extract:
+			if cl, ok := y.Tuple.(*ssa.Call); ok {
+				return cl, y.Index
+			}
+		}
+		return nil, -1
+	}
+	switch {
+	case f.Rel == "true" || f.Rel == "false":
+		call, idx = asCall(f.Cond)
+		want = f.Rel
+	case f.NonNum && f.Rel == "==" && f.LV != nil && f.RV != nil && an.IsNilConst(f.LV):
+		call, idx = asCall(f.RV)
+		want = "nil"
+	case f.NonNum && f.Rel == "==" && f.LV != nil && f.RV != nil && an.IsNilConst(f.RV):
+		call, idx = asCall(f.LV)
+		want = "nil"
+	}
+	if call == nil {
+		return nil, -1, ""
+	}
+	h := x.w.Info(call).Static
+	if h == nil || !x.w.InModule(h) || h.Blocks == nil {
+		return nil, -1, ""
+	}
+	return call, idx, want
+}
+
+// factsAt: the facts dominating instr plus, to depth 2, the facts that the tested
+// outcomes of in-module helpers imply.
+func (x *c25ctx) factsAt(instr ssa.Instruction) []c25dfact {
+	var out []c25dfact
+	var expand func(f an.Fact, bind func(ssa.Value) ssa.Value, depth int)
+	expand = func(f an.Fact, bind func(ssa.Value) ssa.Value, depth int) {
+		out = append(out, c25dfact{f, bind})
+		if depth >= 2 {
+			return
+		}
+		call, idx, want := x.helperOutcome(f)
+		if call == nil {
+			return
+		}
+		h := x.w.Info(call).Static
+		args := call.Call.Args
+		inner := func(v ssa.Value) ssa.Value {
+			if p, ok := v.(*ssa.Parameter); ok && p.Parent() == h {
+				for i, q := range h.Params {
+					if q == p && i < len(args) {
+						return bind(args[i])
+					}
+				}
+			}
+			return v
+		}
+		for _, g := range x.impliedBy(h, idx, want) {
+			expand(g, inner, depth+1)
+		}
+	}
+	for _, f := range x.w.FactsDominating(instr) {
+		expand(f, c25ident, 0)
+	}
+	return out
+}
+
 // ---- R2 -------------------------------------------------------------------------------
 
 type c25line struct {
@@ -502,9 +963,10 @@ type c25line struct {
 }
 
 type c25write struct {
-	call *ssa.Call
-	kind string // append | rewrite
-	line c25line
+	call    *ssa.Call
+	kind    string // append | rewrite
+	line    c25line
+	lineIdx int // index of the line argument in the helper call
 }
 
 type c25mut struct {
@@ -598,9 +1060,8 @@ func (x *c25ctx) lineOf(fn *ssa.Function, v ssa.Value) c25line {
 		if !ok {
 			return c25line{why: "non-constant format"}
 		}
-		eq := strings.Index(f, "=")
-		if !strings.HasSuffix(f, "%s") || strings.Count(f, "%") != 1 || strings.Count(f, "=") != 1 || eq <= 0 || strings.TrimSpace(f[eq+1:]) != "%s" {
-			return c25line{why: "format is not `key=%s`: " + f}
+		if strings.Count(f, "%") != strings.Count(f, "%s") {
+			return c25line{why: "format uses verbs other than %s: " + f}
 		}
 		sl, ok := y.Call.Args[1].(*ssa.Slice)
 		if !ok {
@@ -610,24 +1071,65 @@ func (x *c25ctx) lineOf(fn *ssa.Function, v ssa.Value) c25line {
 		if !ok || al.Referrers() == nil {
 			break
 		}
-		var vals []ssa.Value
+		vals := map[int64]ssa.Value{}
 		for _, ref := range *al.Referrers() {
 			if ia, ok := ref.(*ssa.IndexAddr); ok && ia.Referrers() != nil {
+				i, isC := an.ConstInt(ia.Index)
 				for _, rr := range *ia.Referrers() {
 					if s, ok := rr.(*ssa.Store); ok && s.Addr == ia {
-						vals = append(vals, s.Val)
+						if _, dup := vals[i]; dup || !isC {
+							return c25line{why: "format arguments not understood"}
+						}
+						vals[i] = s.Val
 					}
 				}
 			}
 		}
-		if len(vals) != 1 {
-			return c25line{why: "format arguments are not a single value"}
+		if len(vals) != strings.Count(f, "%s") {
+			return c25line{why: "number of format arguments does not match the format " + f}
 		}
-		p := asParam(vals[0])
+		// substitute the constant arguments; at most one parameter may remain
+		var p *ssa.Parameter
+		var sb strings.Builder
+		rest := f
+		for i := int64(0); ; i++ {
+			j := strings.Index(rest, "%s")
+			if j < 0 {
+				sb.WriteString(rest)
+				break
+			}
+			sb.WriteString(rest[:j])
+			rest = rest[j+2:]
+			v := vals[i]
+			if v == nil {
+				return c25line{why: "format arguments not understood"}
+			}
+			if mi, ok := v.(*ssa.MakeInterface); ok {
+				v = mi.X
+			}
+			if cs, ok := an.ConstString(v); ok {
+				if strings.Contains(cs, "%") {
+					return c25line{why: "constant argument contains %"}
+				}
+				sb.WriteString(cs)
+				continue
+			}
+			q := asParam(v)
+			if q == nil || p != nil {
+				return c25line{why: "formatted value is not a single parameter of the mutator: " + x.w.Term(v)}
+			}
+			p = q
+			sb.WriteString("%s")
+		}
+		g := sb.String()
 		if p == nil {
-			return c25line{why: "formatted value is not a parameter of the mutator: " + x.w.Term(vals[0])}
+			return x.lineOf(fn, ssa.NewConst(constant.MakeString(g), types.Typ[types.String]))
 		}
-		return c25line{format: f, key: strings.TrimSpace(f[:eq]), val: "%s", param: p, ok: true}
+		eq := strings.Index(g, "=")
+		if !strings.HasSuffix(g, "%s") || strings.Count(g, "=") != 1 || eq <= 0 || strings.TrimSpace(g[eq+1:]) != "%s" {
+			return c25line{why: "format is not `key=%s`: " + g}
+		}
+		return c25line{format: g, key: strings.TrimSpace(g[:eq]), val: "%s", param: p, ok: true}
 	}
 	return c25line{why: "unsupported line expression " + x.w.Term(v)}
 }
@@ -635,6 +1137,10 @@ func (x *c25ctx) lineOf(fn *ssa.Function, v ssa.Value) c25line {
 func (x *c25ctx) lockCalls(fn *ssa.Function) (locks []ssa.Instruction, unlocks []ssa.CallInstruction) {
 	for _, ci := range an.Calls(fn) {
 		info := x.w.Info(ci)
+		if !info.IsDefer && !info.IsGo && info.Static != nil && x.acquires(info.Static, 0) {
+			locks = append(locks, ci) // a helper that returns with policy.mu held
+			continue
+		}
 		if len(ci.Common().Args) == 0 || ci.Common().Args[0] != ssa.Value(x.mu) {
 			continue
 		}
@@ -650,6 +1156,87 @@ func (x *c25ctx) lockCalls(fn *ssa.Function) (locks []ssa.Instruction, unlocks [
 		}
 	}
 	return
+}
+
+// acquires: the in-module function returns with policy.mu locked on every path
+// (it locks and never unlocks, e.g. `func lock() func() { mu.Lock(); return mu.Unlock }`).
+func (x *c25ctx) acquires(f *ssa.Function, depth int) bool {
+	if f == nil || !x.w.InModule(f) || f.Blocks == nil || depth > 2 {
+		return false
+	}
+	if v, ok := x.acq[f]; ok {
+		return v
+	}
+	if x.acq == nil {
+		x.acq = map[*ssa.Function]bool{}
+	}
+	x.acq[f] = false
+	var locks []ssa.Instruction
+	for _, ci := range an.Calls(f) {
+		info := x.w.Info(ci)
+		isMu := len(ci.Common().Args) > 0 && ci.Common().Args[0] == ssa.Value(x.mu)
+		switch {
+		case isMu && info.Name == "func:(*sync.Mutex).Unlock":
+			return false
+		case isMu && info.Name == "func:(*sync.Mutex).Lock" && !info.IsDefer && !info.IsGo:
+			locks = append(locks, ci)
+		case !info.IsDefer && !info.IsGo && info.Static != nil && info.Static != f && x.acquires(info.Static, depth+1):
+			locks = append(locks, ci)
+		}
+	}
+	if len(locks) == 0 {
+		return false
+	}
+	for _, r := range c25Returns(f) {
+		if !an.MustPassInstr(r, locks) {
+			return false
+		}
+	}
+	x.acq[f] = true
+	return true
+}
+
+// lockState: "held" when every path to g has taken policy.mu (in the function
+// itself or in every caller of an unexported function), "free" when an entry
+// point reaches g without it, else "unknown".
+func (x *c25ctx) lockState(g ssa.Instruction, depth int) (string, string) {
+	fn := g.Parent()
+	locks, unlocks := x.lockCalls(fn)
+	if an.MustPassInstr(g, locks) {
+		for _, u := range unlocks {
+			if c25After(u, g) {
+				return "unknown", "policy.mu is unlocked explicitly in " + x.w.FuncName(fn) + " before the operation"
+			}
+		}
+		return "held", ""
+	}
+	if fn.Parent() != nil {
+		return "unknown", "inside a closure"
+	}
+	if c25exported(fn) {
+		return "free", "the exported function " + x.w.FuncName(fn) + " reaches it without taking policy.mu"
+	}
+	if depth > 3 {
+		return "unknown", "call chain too deep"
+	}
+	sites := x.staticCallers(fn)
+	if len(sites) == 0 {
+		return "unknown", x.w.FuncName(fn) + " is unexported and has no static caller"
+	}
+	res, why := "held", ""
+	for _, s := range sites {
+		if x.w.Info(s).IsGo {
+			return "unknown", "started as a goroutine"
+		}
+		st, w2 := x.lockState(s, depth+1)
+		if st == "free" {
+			return "free", w2
+		}
+		if st != "held" {
+			res, why = "unknown", w2
+		}
+	}
+	return res, why
 }
 
 // condCall: the fact's condition is result #idx of a call.
@@ -704,10 +1291,11 @@ func (x *c25ctx) r2(over map[*ssa.Function]*c25overwrite) []*c25mut {
 			}
 		}
 		if !isMethod {
+			// a helper that only delegates to another file helper is judged where it is used (C25.R3)
 			if direct {
 				helpers[hk]++
 			} else {
-				c.Unknown("C25.R2", w.FuncName(fn), w.Pos(fn.Pos()), "a non-method of package policy reaches a file write only through other functions: unsupported helper shape")
+				c.Note("C25.R2", w.FuncName(fn), w.Pos(fn.Pos()), "file helper that reaches the file write only through other helpers")
 			}
 			continue
 		}
@@ -724,7 +1312,7 @@ func (x *c25ctx) r2(over map[*ssa.Function]*c25overwrite) []*c25mut {
 		muts = append(muts, m)
 	}
 	sort.Slice(muts, func(i, j int) bool { return w.FuncName(muts[i].fn) < w.FuncName(muts[j].fn) })
-	if !c.AtLeast("C25.R2", "mutators (methods of *Policy that write the file)", len(muts), 6) {
+	if !c.AtLeast("C25.R2", "mutators (methods of *Policy that write the file)", len(muts), 3) {
 		return muts
 	}
 	c.AtLeast("C25.R2", "append helpers", helpers["append"], 1)
@@ -762,6 +1350,14 @@ func (x *c25ctx) r2(over map[*ssa.Function]*c25overwrite) []*c25mut {
 				continue
 			}
 			wr.line = x.lineOf(fn, lineArgs[0])
+			for i, a := range wr.call.Call.Args {
+				if a == lineArgs[0] {
+					wr.lineIdx = i
+				}
+			}
+			if !wr.line.ok && wr.kind == "rewrite" {
+				x.keylessRemove(fn, wr, lineArgs[0])
+			}
 			if !wr.line.ok {
 				c.Unknown("C25.R2", name+" "+wr.kind, w.Pos(wr.call.Pos()), "written line not understood: "+wr.line.why)
 				shapeOK = false
@@ -794,7 +1390,6 @@ func (x *c25ctx) r2(over map[*ssa.Function]*c25overwrite) []*c25mut {
 		}
 
 		// ---- lock
-		locks, unlocks := x.lockCalls(fn)
 		var guarded []ssa.Instruction
 		for _, wr := range m.writes {
 			guarded = append(guarded, wr.call)
@@ -802,18 +1397,25 @@ func (x *c25ctx) r2(over map[*ssa.Function]*c25overwrite) []*c25mut {
 		for _, rc := range m.reloads {
 			guarded = append(guarded, rc)
 		}
-		lockOK := true
+		lockRes, lockWhy := "held", ""
 		for _, g := range guarded {
-			if !an.MustPassInstr(g, locks) {
-				lockOK = false
+			st, why := x.lockState(g, 0)
+			if st == "free" {
+				lockRes, lockWhy = st, why
+				break
 			}
-			for _, u := range unlocks {
-				if c25After(u, g) {
-					lockOK = false
-				}
+			if st != "held" {
+				lockRes, lockWhy = st, why
 			}
 		}
-		c.Decide(lockOK, "C25.R2", name+" lock", pos, "file writes and reload run with policy.mu held", "a file write or the reload can run without policy.mu: two concurrent mutations interleave their read-modify-write of the file and of memory")
+		switch lockRes {
+		case "held":
+			c.OK("C25.R2", name+" lock", pos, "file writes and reload run with policy.mu held")
+		case "free":
+			c.Bad("C25.R2", name+" lock", pos, "a file write or the reload can run without policy.mu ("+lockWhy+"): two concurrent mutations interleave their read-modify-write of the file and of memory")
+		default:
+			c.Unknown("C25.R2", name+" lock", pos, "cannot decide whether policy.mu is held at the file write / reload: "+lockWhy)
+		}
 
 		// ---- guards
 		for _, wr := range m.writes {
@@ -821,16 +1423,25 @@ func (x *c25ctx) r2(over map[*ssa.Function]*c25overwrite) []*c25mut {
 				continue
 			}
 			facts := w.FactsDominating(wr.call)
+			dfacts := x.factsAt(wr.call)
 			cons := name + " " + wr.kind + " " + wr.line.key
+			// a guard that is not found in an unexported mutator may be applied by its callers
+			missing := func(what, msg string) {
+				if !c25exported(fn) {
+					c.Unknown("C25.R2", cons+" "+what, w.Pos(wr.call.Pos()), "not found in the unexported "+name+" (its callers may apply it): "+msg)
+					return
+				}
+				c.Bad("C25.R2", cons+" "+what, w.Pos(wr.call.Pos()), msg)
+			}
 			// validator
 			var vfn, otherV *ssa.Function
-			for _, f := range facts {
-				call, idx := c25CondCall(f)
-				if call == nil || idx != 0 || f.Rel != "true" {
+			for _, d := range dfacts {
+				call, idx := c25CondCall(d.f)
+				if call == nil || idx != 0 || d.f.Rel != "true" {
 					continue
 				}
 				callee := w.Info(call).Static
-				if callee == nil || !w.InModule(callee) || len(call.Call.Args) != 1 || call.Call.Args[0] != ssa.Value(wr.line.param) {
+				if callee == nil || !w.InModule(callee) || len(call.Call.Args) != 1 || d.bind(call.Call.Args[0]) != ssa.Value(wr.line.param) {
 					continue
 				}
 				if x.validatorShape(callee) {
@@ -842,7 +1453,7 @@ func (x *c25ctx) r2(over map[*ssa.Function]*c25overwrite) []*c25mut {
 			if vfn == nil && otherV != nil {
 				c.Unknown("C25.R2", cons+" validator", w.Pos(wr.call.Pos()), "the write is dominated by "+w.FuncName(otherV)+"(param) passing, but that function is not of the supported validator shape (regexp.MatchString(constant, param)): cannot decide what it accepts")
 			} else if vfn == nil {
-				c.Bad("C25.R2", cons+" validator", w.Pos(wr.call.Pos()), "the line written to the policy file contains the parameter without a dominating pubkey validation of that parameter: an invalid key (or one containing a newline and a second ini line) reaches the file. Facts that hold: "+an.DescribeFacts(facts))
+				missing("validator", "the line written to the policy file contains the parameter without a dominating pubkey validation of that parameter: an invalid key (or one containing a newline and a second ini line) reaches the file. Facts that hold: "+an.DescribeFacts(facts))
 			} else {
 				c.OK("C25.R2", cons+" validator", w.Pos(wr.call.Pos()), "dominated by "+w.FuncName(vfn)+"(param) passing")
 				x.validator(vfn)
@@ -854,13 +1465,13 @@ func (x *c25ctx) r2(over map[*ssa.Function]*c25overwrite) []*c25mut {
 			fi, known := x.iniKey[wr.line.key]
 			dupOK := false
 			var seenLists []string
-			for _, f := range facts {
-				call, idx := c25CondCall(f)
-				if call == nil || idx != 0 || f.Rel != "false" || !strings.HasPrefix(w.Info(call).Name, "func:slices.Contains") || len(call.Call.Args) != 2 {
+			for _, d := range dfacts {
+				call, idx := c25CondCall(d.f)
+				if call == nil || idx != 0 || d.f.Rel != "false" || !strings.HasPrefix(w.Info(call).Name, "func:slices.Contains") || len(call.Call.Args) != 2 {
 					continue
 				}
-				lb, lf, _ := x.polFieldLoad(call.Call.Args[0])
-				if lb != ssa.Value(recv) || call.Call.Args[1] != ssa.Value(wr.line.param) {
+				lb, lf, _ := x.polFieldLoad(d.bind(call.Call.Args[0]))
+				if lb == nil || (lb != ssa.Value(recv) && d.bind(lb) != ssa.Value(recv)) || d.bind(call.Call.Args[1]) != ssa.Value(wr.line.param) {
 					continue
 				}
 				seenLists = append(seenLists, x.polSt.Field(lf).Name())
@@ -873,22 +1484,37 @@ func (x *c25ctx) r2(over map[*ssa.Function]*c25overwrite) []*c25mut {
 				want = x.polSt.Field(fi).Name()
 			}
 			if !dupOK && known {
-				// a membership test written as a loop is not recognised: do not call it missing
+				// a membership test written as a loop (here or in a helper) is not recognised: do not call it missing
 				pt := w.Term(wr.line.param)
+				unrec := ""
 				for _, f := range w.Facts(fn) {
 					if f.NonNum && (f.L == pt || f.R == pt) && (strings.Contains(f.L, "field:Policy."+want) || strings.Contains(f.R, "field:Policy."+want)) {
-						c.Unknown("C25.R2", cons+" not-present", w.Pos(wr.call.Pos()), "the parameter is compared with elements of Policy."+want+" in a form other than slices.Contains: cannot decide whether the write is guarded ("+f.String()+")")
-						dupOK = true
-						break
+						unrec = f.String()
 					}
 				}
-				if dupOK {
+				for _, d := range dfacts {
+					if call, _, _ := x.helperOutcome(d.f); call != nil {
+						uses := false
+						for _, a := range call.Call.Args {
+							if d.bind(a) == ssa.Value(wr.line.param) {
+								uses = true
+							}
+						}
+						if uses && !x.validatorShape(w.Info(call).Static) {
+							unrec = "outcome of " + w.FuncName(w.Info(call).Static) + " on the parameter"
+						}
+					}
+				}
+				if unrec != "" {
+					c.Unknown("C25.R2", cons+" not-present", w.Pos(wr.call.Pos()), "the parameter is tested in a form other than slices.Contains(Policy."+want+", param): cannot decide whether the write is guarded ("+unrec+")")
 					continue
 				}
 			}
-			c.Decide(dupOK, "C25.R2", cons+" not-present", w.Pos(wr.call.Pos()),
-				"dominated by !slices.Contains(Policy."+want+", param)",
-				fmt.Sprintf("an addition to ini key %s is not dominated by the not-already-present test on Policy.%s with the written parameter (tests found on: %v): a duplicate addition changes the file. Facts that hold: %s", wr.line.key, want, seenLists, an.DescribeFacts(facts)))
+			if dupOK {
+				c.OK("C25.R2", cons+" not-present", w.Pos(wr.call.Pos()), "dominated by !slices.Contains(Policy."+want+", param)")
+			} else {
+				missing("not-present", fmt.Sprintf("an addition to ini key %s is not dominated by the not-already-present test on Policy.%s with the written parameter (tests found on: %v): a duplicate addition changes the file. Facts that hold: %s", wr.line.key, want, seenLists, an.DescribeFacts(facts)))
+			}
 		}
 
 		// ---- write ⇒ reload before every return
@@ -904,6 +1530,13 @@ func (x *c25ctx) r2(over map[*ssa.Function]*c25overwrite) []*c25mut {
 			}
 		}
 		rets := c25Returns(fn)
+		noReload := func(cons, pos, msg string) {
+			if !c25exported(fn) {
+				c.Unknown("C25.R2", cons, pos, "the unexported "+name+" does not reload itself (its callers may): "+msg)
+				return
+			}
+			c.Bad("C25.R2", cons, pos, msg)
+		}
 		for _, wr := range m.writes {
 			cons := name + " " + wr.kind + " " + wr.line.format + " then reload"
 			okE, _ := an.OkEdges(wr.call)
@@ -926,7 +1559,7 @@ func (x *c25ctx) r2(over map[*ssa.Function]*c25overwrite) []*c25mut {
 				}
 				start = wr.call.Block().Succs
 				if len(start) == 0 {
-					c.Bad("C25.R2", cons, w.Pos(wr.call.Pos()), "returns right after the file write without reloading")
+					noReload(cons, w.Pos(wr.call.Pos()), "returns right after the file write without reloading")
 					continue
 				}
 			}
@@ -936,7 +1569,7 @@ func (x *c25ctx) r2(over map[*ssa.Function]*c25overwrite) []*c25mut {
 			for _, r := range rets {
 				if reach[r.Block()] && !reloadBlocks[r.Block()] {
 					good = false
-					c.Bad("C25.R2", cons, w.Pos(r.Pos()), "a return is reached after the file was written without reloading it: the change does not apply to the next request (memory keeps the old policy until a restart)")
+					noReload(cons, w.Pos(r.Pos()), "a return is reached after the file was written without reloading it: the change does not apply to the next request (memory keeps the old policy until a restart)")
 				}
 			}
 			// the reload must come after the write also inside a shared block
@@ -951,7 +1584,7 @@ func (x *c25ctx) r2(over map[*ssa.Function]*c25overwrite) []*c25mut {
 			}
 		}
 		if len(m.reloads) == 0 {
-			c.Bad("C25.R2", name+" reload", pos, "mutator never reloads the file")
+			noReload(name+" reload", pos, "mutator never reloads the file")
 		}
 		// ---- reload error propagated
 		for _, rc := range m.reloads {
@@ -964,7 +1597,15 @@ func (x *c25ctx) r2(over map[*ssa.Function]*c25overwrite) []*c25mut {
 					}
 				}
 			}
-			c.Decide(returned || len(okE) > 0, "C25.R2", name+" reload result", w.Pos(rc.Pos()), "the reload error is returned or tested", "the error of the reload is dropped: a file that no longer parses leaves memory and file different while the operation reports success")
+			used := rc.Referrers() != nil && len(*rc.Referrers()) > 0
+			switch {
+			case returned || len(okE) > 0:
+				c.OK("C25.R2", name+" reload result", w.Pos(rc.Pos()), "the reload error is returned or tested")
+			case !used:
+				c.Bad("C25.R2", name+" reload result", w.Pos(rc.Pos()), "the error of the reload is dropped: a file that no longer parses leaves memory and file different while the operation reports success")
+			default:
+				c.Unknown("C25.R2", name+" reload result", w.Pos(rc.Pos()), "the reload error is used in a way that is not understood (neither returned directly nor compared with nil)")
+			}
 		}
 		// ---- nil returns that wrote nothing
 		for _, r := range rets {
@@ -1019,12 +1660,46 @@ func (x *c25ctx) r2(over map[*ssa.Function]*c25overwrite) []*c25mut {
 					}
 				}
 			}
-			c.Decide(just, "C25.R2", cons, w.Pos(r.Pos()),
-				"success without a write only when memory already has the value the mutator would write",
-				"the mutator reports success without writing the file and without a dominating test that the policy already has the target value: the operation is silently skipped. Facts that hold: "+an.DescribeFacts(facts))
+			// positively wrong: a test of the toggled field with the opposite value, or no condition at all
+			contrary := len(facts) == 0
+			if m.kind == "toggle" {
+				for _, wr := range m.writes {
+					fi, known := x.iniKey[wr.line.key]
+					for _, f := range facts {
+						if lb, lf, truth, ok := x.boolFieldFact(f); wr.kind == "append" && known && ok && lb == ssa.Value(recv) && lf == fi && truth != wr.line.val {
+							contrary = true
+						}
+					}
+				}
+			}
+			msg := "the mutator reports success without writing the file and without a dominating test that the policy already has the target value: the operation is silently skipped. Facts that hold: " + an.DescribeFacts(facts)
+			switch {
+			case just:
+				c.OK("C25.R2", cons, w.Pos(r.Pos()), "success without a write only when memory already has the value the mutator would write")
+			case contrary && c25exported(fn):
+				c.Bad("C25.R2", cons, w.Pos(r.Pos()), msg)
+			default:
+				c.Unknown("C25.R2", cons, w.Pos(r.Pos()), "cannot interpret the condition of a success return that writes nothing: "+msg)
+			}
 		}
 	}
-	c.AtLeast("C25.R2", "file-write call sites in mutators", nWrites, 8)
+	// semantic floor: distinct (append|rewrite, line) operations understood, not call sites
+	ops := map[string]bool{}
+	undecided := false
+	for _, m := range muts {
+		if m.kind == "" {
+			undecided = true
+		}
+		for _, wr := range m.writes {
+			if wr.line.ok {
+				ops[wr.kind+" "+wr.line.format] = true
+			}
+		}
+	}
+	_ = nWrites
+	if !undecided {
+		c.AtLeast("C25.R2", "distinct file operations (append/rewrite of a line) in mutators", len(ops), 6)
+	}
 	return muts
 }
 
@@ -1059,34 +1734,41 @@ func (x *c25ctx) validator(f *ssa.Function) {
 	name := w.FuncName(f)
 	pat, match, _ := x.validatorParts(f)
 	// true is returned only when the match result is true
-	good := true
+	verdict := "ok"
 	nTrue := 0
-	for _, r := range c25Returns(f) {
-		for _, v := range c25RetVals(r, 0) {
-			k, isC := v.(*ssa.Const)
-			if isC && k.Value != nil && k.Value.String() == "false" {
-				continue
-			}
-			nTrue++
-			under := false
-			for _, fa := range w.FactsDominatingBlock(r.Block()) {
-				call, idx := c25CondCall(fa)
-				if call == match && idx == 0 && fa.Rel == "true" {
-					under = true
-				}
-			}
-			if !under && v != ssa.Value(nil) {
-				// returning the match result itself is fine too
-				if ex, ok := v.(*ssa.Extract); ok && ex.Tuple == ssa.Value(match) && ex.Index == 0 {
-					under = true
-				}
-			}
-			if !under {
-				good = false
+	for _, rc := range c25retCases(f, 0) {
+		v := rc.val
+		if k, isC := v.(*ssa.Const); isC && k.Value != nil && k.Value.String() == "false" {
+			continue
+		}
+		nTrue++
+		if ex, ok := v.(*ssa.Extract); ok && ex.Tuple == ssa.Value(match) && ex.Index == 0 {
+			continue // the match result itself
+		}
+		under := false
+		for _, fa := range x.factsAtCase(f, rc) {
+			call, idx := c25CondCall(fa)
+			if call == match && idx == 0 && fa.Rel == "true" {
+				under = true
 			}
 		}
+		if under {
+			continue
+		}
+		if k, isC := v.(*ssa.Const); isC && k.Value != nil && k.Value.String() == "true" {
+			verdict = "bad"
+		} else if verdict != "bad" {
+			verdict = "unknown"
+		}
 	}
-	c.Decide(good && nTrue > 0, "C25.R2", name+" returns true only on match", w.Pos(f.Pos()), "`true` is returned only under the regexp match", "the validator can return true without the regexp having matched")
+	switch {
+	case verdict == "bad" || nTrue == 0:
+		c.Bad("C25.R2", name+" returns true only on match", w.Pos(f.Pos()), "the validator can return true without the regexp having matched (or never returns true)")
+	case verdict == "unknown":
+		c.Unknown("C25.R2", name+" returns true only on match", w.Pos(f.Pos()), "the validator returns a value that is neither a constant nor the match result: cannot decide")
+	default:
+		c.OK("C25.R2", name+" returns true only on match", w.Pos(f.Pos()), "`true` is returned only under the regexp match")
+	}
 	re, err := regexp.Compile(pat)
 	if err != nil {
 		c.Bad("C25.R2", name+" pattern", w.Pos(match.Pos()), "pattern constant does not compile: "+err.Error())
@@ -1221,7 +1903,45 @@ func (x *c25ctx) r3(muts []*c25mut) {
 		ks = append(ks, k)
 	}
 	sort.Strings(ks)
-	c.AtLeast("C25.R3", "distinct written ini keys", len(ks), 3)
+	incomplete := false
+	for _, m := range muts {
+		if m.kind == "" {
+			incomplete = true
+		}
+	}
+	// the rewrite helpers drop exactly the lines equal to the line they are given
+	doneHelper := map[string]bool{}
+	nHelpers := 0
+	for _, m := range muts {
+		for _, wr := range m.writes {
+			h := x.w.Info(wr.call).Static
+			if wr.kind != "rewrite" || !wr.line.ok || h == nil {
+				continue
+			}
+			k := fmt.Sprintf("%s#%d", x.w.FuncName(h), wr.lineIdx)
+			if doneHelper[k] {
+				continue
+			}
+			doneHelper[k] = true
+			nHelpers++
+			cons := x.w.FuncName(h) + " drops every line equal to its argument"
+			switch v, why := x.dropsEqual(h, wr.lineIdx, 0); v {
+			case "ok":
+				c.OK("C25.R3", cons, x.w.Pos(h.Pos()), "a scanned line is copied to the new file only on the edge `line != argument`: "+why)
+			case "bad":
+				c.Bad("C25.R3", cons, x.w.Pos(h.Pos()), "a line equal to the target can be copied into the rewritten file ("+why+"): with a repeated line in the file a removal (or a toggle) leaves one copy behind, so the change is reported but after the reload the peer is still listed / the old switch value still present")
+			default:
+				c.Unknown("C25.R3", cons, x.w.Pos(h.Pos()), "cannot decide that the rewrite drops every line equal to its argument: "+why)
+			}
+		}
+	}
+	if !incomplete {
+		c.AtLeast("C25.R3", "rewrite helpers whose filter is decided", nHelpers, 1)
+	}
+	if !incomplete {
+		// when a mutator was not understood, C25.R2 already reports it as undecided
+		c.AtLeast("C25.R3", "distinct written ini keys", len(ks), 3)
+	}
 	setOf := func(m map[string]string) []string {
 		var out []string
 		for k := range m {
@@ -1246,7 +1966,12 @@ func (x *c25ctx) r3(muts []*c25mut) {
 			c.Note("C25.R3", "key "+k+" formats", pos, fmt.Sprintf("only appended %v / only removed %v", a, r))
 			continue
 		}
-		c.Decide(strings.Join(a, "|") == strings.Join(r, "|"), "C25.R3", "key "+k+" formats", pos,
+		same := strings.Join(a, "|") == strings.Join(r, "|")
+		if !same && incomplete {
+			c.Unknown("C25.R3", "key "+k+" formats", pos, fmt.Sprintf("lines appended %v and removed %v differ, but the lines of some mutators were not understood (see C25.R2): cannot decide", a, r))
+			continue
+		}
+		c.Decide(same, "C25.R3", "key "+k+" formats", pos,
 			fmt.Sprintf("lines appended and lines removed for the key are the same set %v", a),
 			fmt.Sprintf("lines appended %v and lines removed %v for the same key differ: a removal does not find the line an addition wrote (the change is reported but does not survive the reload), or a toggle leaves the opposite line in the file", a, r))
 	}
@@ -1304,13 +2029,15 @@ func (x *c25ctx) r4(muts []*c25mut) {
 		}
 		n++
 		cons := w.FuncName(fn)
+		// library functions are taken as pure functions of their arguments
 		through := map[string]bool{}
 		for _, ci := range an.Calls(fn) {
-			if nmc := w.Info(ci).Name; strings.HasPrefix(nmc, "func:slices.Contains") {
-				through[nmc] = true
+			info := w.Info(ci)
+			if info.Static != nil && !w.InModule(info.Static) && !strings.HasPrefix(info.Name, "func:(*sync.") {
+				through[info.Name] = true
 			}
 		}
-		var badLeaves []string
+		var badLeaves, unkLeaves []string
 		nField := 0
 		for _, r := range c25Returns(fn) {
 			for i := range r.Results {
@@ -1318,28 +2045,43 @@ func (x *c25ctx) r4(muts []*c25mut) {
 					ss := w.Sources(v, an.FlowOpts{ThroughCalls: through})
 					for _, l := range ss.Leaves {
 						switch l.Kind {
-						case "const", "zero", "param":
+						case "const", "zero":
+						case "param":
+							if p, ok := l.Val.(*ssa.Parameter); ok && p == fn.Params[0] {
+								nField++ // the receiver object read as a whole (`snapshot := *p`)
+							}
 						case "field":
 							base, _, _ := x.polFieldLoad(l.Val)
 							if fa, ok := l.Val.(*ssa.FieldAddr); ok && x.isPolPtr(fa.X.Type()) {
 								base = fa.X
 							}
-							if base == ssa.Value(fn.Params[0]) {
+							switch {
+							case base == ssa.Value(fn.Params[0]):
 								nField++
-							} else {
+							case base != nil:
+								badLeaves = append(badLeaves, l.String()+" of another policy object")
+							default:
+								unkLeaves = append(unkLeaves, l.String())
+							}
+						case "global":
+							if g, ok := l.Val.(*ssa.Global); ok && x.writtenAfterInit(g) {
 								badLeaves = append(badLeaves, l.String())
 							}
+							// a package variable that is only initialised counts as a constant
 						default:
-							badLeaves = append(badLeaves, l.String())
+							unkLeaves = append(unkLeaves, l.String())
 						}
 					}
 				}
 			}
 		}
 		sort.Strings(badLeaves)
+		sort.Strings(unkLeaves)
 		switch {
 		case len(badLeaves) > 0:
 			c.Bad("C25.R4", cons, w.Pos(fn.Pos()), fmt.Sprintf("the answer also depends on %v, not only on the live fields of the policy object: a change written to the file and reloaded does not (fully) apply to the next request", badLeaves))
+		case len(unkLeaves) > 0:
+			c.Unknown("C25.R4", cons, w.Pos(fn.Pos()), fmt.Sprintf("the answer is computed through %v, which is not interpreted: cannot decide that it depends only on the live fields of the policy object", unkLeaves))
 		case nField == 0:
 			c.Bad("C25.R4", cons, w.Pos(fn.Pos()), "the answer does not read any field of the policy object")
 		default:
@@ -1396,4 +2138,294 @@ func c25ValueOf(in ssa.Instruction) ssa.Value {
 		return v
 	}
 	return nil
+}
+
+// writtenAfterInit: some production function other than a package initialiser stores into the global.
+func (x *c25ctx) writtenAfterInit(g *ssa.Global) bool {
+	for _, fn := range x.w.SrcFuncs(nil) {
+		if fn.Name() == "init" && fn.Synthetic != "" {
+			continue
+		}
+		for _, b := range fn.Blocks {
+			for _, in := range b.Instrs {
+				if st, ok := in.(*ssa.Store); ok && c25root(st.Addr) == ssa.Value(g) {
+					return true
+				}
+			}
+		}
+	}
+	return false
+}
+
+// ---- the rewrite helper's filter ----------------------------------------------------------------
+
+func c25isScanLine(w *an.World, v ssa.Value) bool {
+	for {
+		switch y := v.(type) {
+		case *ssa.Convert:
+			v = y.X
+			continue
+		case *ssa.ChangeType:
+			v = y.X
+			continue
+		case *ssa.Call:
+			n := w.Info(y).Name
+			return n == "func:(*bufio.Scanner).Text" || n == "func:(*bufio.Scanner).Bytes"
+		}
+		return false
+	}
+}
+
+// copySinks: calls inside a loop that write a scanned line to the output.
+func (x *c25ctx) copySinks(h *ssa.Function) []ssa.CallInstruction {
+	var out []ssa.CallInstruction
+	for _, ci := range an.Calls(h) {
+		if !c25InLoop(ci.Block()) {
+			continue
+		}
+		switch x.w.Info(ci).Name {
+		case "func:(*bytes.Buffer).Write", "func:(*bytes.Buffer).WriteString", "func:(*strings.Builder).WriteString", "func:(*strings.Builder).Write",
+			"func:(*bufio.Writer).Write", "func:(*bufio.Writer).WriteString", "func:fmt.Fprintln", "func:fmt.Fprintf", "func:fmt.Fprint", "builtin:append":
+		default:
+			continue
+		}
+		for _, a := range ci.Common().Args {
+			ss := x.w.Sources(a, an.FlowOpts{})
+			if ss.HasPrefix("call", "func:(*bufio.Scanner).Text") || ss.HasPrefix("call", "func:(*bufio.Scanner).Bytes") {
+				out = append(out, ci)
+				break
+			}
+		}
+	}
+	return out
+}
+
+// dropsEqual: helper h copies a scanned line only when it differs from its parameter #idx.
+func (x *c25ctx) dropsEqual(h *ssa.Function, idx int, depth int) (string, string) {
+	w := x.w
+	if h == nil || h.Blocks == nil || idx >= len(h.Params) || depth > 3 {
+		return "unknown", "helper not analysable"
+	}
+	target := h.Params[idx]
+	sinks := x.copySinks(h)
+	if len(sinks) > 0 {
+		// is there any comparison of the scanned line with the target at all?
+		compares := false
+		for _, f := range w.Facts(h) {
+			if f.NonNum && f.LV != nil && f.RV != nil && ((c25isScanLine(w, f.LV) && f.RV == ssa.Value(target)) || (c25isScanLine(w, f.RV) && f.LV == ssa.Value(target))) {
+				compares = true
+			}
+		}
+		for _, sk := range sinks {
+			ok := false
+			for _, f := range w.FactsDominating(sk) {
+				if f.NonNum && f.Rel == "!=" && f.LV != nil && f.RV != nil && ((c25isScanLine(w, f.LV) && f.RV == ssa.Value(target)) || (c25isScanLine(w, f.RV) && f.LV == ssa.Value(target))) {
+					ok = true
+				}
+			}
+			if ok {
+				continue
+			}
+			if compares {
+				return "bad", "the copy at " + w.Pos(sk.Pos()) + " is reachable without passing the edge `scanned line != argument` (other state decides as well)"
+			}
+			return "unknown", "the copy at " + w.Pos(sk.Pos()) + " is not guarded by a comparison of the scanned line with the argument"
+		}
+		return "ok", w.FuncName(h)
+	}
+	// no loop here: the work is delegated
+	for _, ci := range an.Calls(h) {
+		call, isCall := ci.(*ssa.Call)
+		g := w.Info(ci).Static
+		if !isCall || g == nil || g == h || !w.InModule(g) || x.helperKind(g) == "" {
+			continue
+		}
+		for j, a := range call.Call.Args {
+			if a == ssa.Value(target) {
+				return x.dropsEqual(g, j, depth+1)
+			}
+		}
+		// a generic filter with a predicate closure that captures the target
+		for j, a := range call.Call.Args {
+			mc, isMC := a.(*ssa.MakeClosure)
+			if !isMC {
+				continue
+			}
+			captured := -1
+			for bi, bv := range mc.Bindings {
+				if bv == ssa.Value(target) {
+					captured = bi
+				}
+				// captured by reference: the parameter spilled into a cell
+				if al, ok := bv.(*ssa.Alloc); ok && al.Referrers() != nil {
+					n, hit := 0, false
+					for _, r := range *al.Referrers() {
+						if st, ok := r.(*ssa.Store); ok && st.Addr == ssa.Value(al) {
+							n++
+							hit = st.Val == ssa.Value(target)
+						}
+					}
+					if n == 1 && hit {
+						captured = bi
+					}
+				}
+			}
+			pf, _ := mc.Fn.(*ssa.Function)
+			if captured < 0 || pf == nil {
+				continue
+			}
+			if v, why := x.filterKeepsOn(g, j); v != "ok" {
+				return v, why
+			}
+			return x.predicateIsNotEqual(pf, captured)
+		}
+	}
+	return "unknown", w.FuncName(h) + " neither filters lines itself nor hands its argument to a helper that does"
+}
+
+// filterKeepsOn: g copies a scanned line only when its func-typed parameter #k answers true for that line.
+func (x *c25ctx) filterKeepsOn(g *ssa.Function, k int) (string, string) {
+	w := x.w
+	if g.Blocks == nil || k >= len(g.Params) {
+		return "unknown", "filter not analysable"
+	}
+	sinks := x.copySinks(g)
+	if len(sinks) == 0 {
+		return "unknown", w.FuncName(g) + " has no copy loop"
+	}
+	for _, sk := range sinks {
+		ok := false
+		for _, f := range w.FactsDominating(sk) {
+			call, isCall := f.Cond.(*ssa.Call)
+			if f.Rel == "true" && isCall && call.Call.Value == ssa.Value(g.Params[k]) && len(call.Call.Args) == 1 && c25isScanLine(w, call.Call.Args[0]) {
+				ok = true
+			}
+		}
+		if !ok {
+			return "unknown", "the copy in " + w.FuncName(g) + " is not simply guarded by the predicate parameter"
+		}
+	}
+	return "ok", ""
+}
+
+// predicateIsNotEqual: the closure answers true only when its argument differs from the captured target.
+func (x *c25ctx) predicateIsNotEqual(pf *ssa.Function, captured int) (string, string) {
+	w := x.w
+	if pf.Blocks == nil || len(pf.Params) != 1 || captured >= len(pf.FreeVars) {
+		return "unknown", "predicate not analysable"
+	}
+	line, fv := ssa.Value(pf.Params[0]), ssa.Value(pf.FreeVars[captured])
+	// the target is the free variable, or a load of it when it was captured by reference
+	isTgt := func(v ssa.Value) bool {
+		if v == fv {
+			return true
+		}
+		ld, ok := v.(*ssa.UnOp)
+		return ok && ld.Op == token.MUL && ld.X == fv
+	}
+	for _, b := range pf.Blocks {
+		for _, in := range b.Instrs {
+			if st, ok := in.(*ssa.Store); ok && st.Addr == fv {
+				return "unknown", "the predicate assigns the captured target"
+			}
+		}
+	}
+	isNE := func(v ssa.Value) bool {
+		b, ok := v.(*ssa.BinOp)
+		return ok && b.Op == token.NEQ && ((b.X == line && isTgt(b.Y)) || (isTgt(b.X) && b.Y == line))
+	}
+	usesTarget := false
+	for _, b := range pf.Blocks {
+		for _, in := range b.Instrs {
+			for _, op := range in.Operands(nil) {
+				if *op != nil && isTgt(*op) {
+					usesTarget = true
+				}
+			}
+		}
+	}
+	for _, rc := range c25retCases(pf, 0) {
+		if !x.mayBe(pf, rc, "true") {
+			continue
+		}
+		if isNE(rc.val) {
+			continue
+		}
+		under := false
+		for _, f := range x.factsAtCase(pf, rc) {
+			if f.NonNum && f.Rel == "!=" && f.LV != nil && f.RV != nil && ((f.LV == line && isTgt(f.RV)) || (isTgt(f.LV) && f.RV == line)) {
+				under = true
+			}
+		}
+		if under {
+			continue
+		}
+		if usesTarget {
+			return "bad", "the predicate " + w.FuncName(pf) + " can keep a line without comparing the whole line with the target"
+		}
+		return "unknown", "the predicate " + w.FuncName(pf) + " is not understood"
+	}
+	return "ok", "predicate " + w.FuncName(pf)
+}
+
+// keylessRemove: a remove-mutator hands the bare parameter (no `key=` part) to the
+// rewrite helper. Unless an ini key is built into the helper, the deletion cannot
+// be matched on the key: it also deletes the peer's line under the other key.
+func (x *c25ctx) keylessRemove(fn *ssa.Function, wr *c25write, arg ssa.Value) {
+	c, w := x.c, x.w
+	p, isParam := arg.(*ssa.Parameter)
+	h := w.Info(wr.call).Static
+	if !isParam || p.Parent() != fn || h == nil {
+		return
+	}
+	// every function the helper can run: static in-module callees and closures created on the way
+	seen := map[*ssa.Function]bool{}
+	var fns []*ssa.Function
+	var walk func(f *ssa.Function, depth int)
+	walk = func(f *ssa.Function, depth int) {
+		if f == nil || seen[f] || f.Blocks == nil || !w.InModule(f) || depth > 4 {
+			return
+		}
+		seen[f] = true
+		fns = append(fns, f)
+		for _, b := range f.Blocks {
+			for _, in := range b.Instrs {
+				switch y := in.(type) {
+				case *ssa.MakeClosure:
+					if g, ok := y.Fn.(*ssa.Function); ok {
+						walk(g, depth+1)
+					}
+				case ssa.CallInstruction:
+					walk(w.Info(y).Static, depth+1)
+				}
+			}
+		}
+	}
+	walk(h, 0)
+	var keyConsts []string
+	for _, f := range fns {
+		for _, b := range f.Blocks {
+			for _, in := range b.Instrs {
+				for _, op := range in.Operands(nil) {
+					if *op == nil {
+						continue
+					}
+					if cs, ok := an.ConstString(*op); ok {
+						for k := range x.iniKey {
+							if strings.Contains(cs, k) {
+								keyConsts = append(keyConsts, cs)
+							}
+						}
+					}
+				}
+			}
+		}
+	}
+	cons := w.FuncName(fn) + " " + wr.kind + " match involves the key"
+	if len(keyConsts) == 0 {
+		c.Bad("C25.R3", cons, w.Pos(wr.call.Pos()), "the remove-mutator hands only the bare parameter to "+w.FuncName(h)+" and neither the argument nor the helper contains the ini key: the deletion is matched on the value alone, so it also deletes the line of the same peer under every other key (removing a peer from one list removes it from the other; the change to the other list was never requested and survives the reload)")
+		return
+	}
+	sort.Strings(keyConsts)
+	c.Unknown("C25.R3", cons, w.Pos(wr.call.Pos()), fmt.Sprintf("the remove-mutator hands only the bare parameter to %s; the helper contains the key constant(s) %v but how they enter the match is not analysed", w.FuncName(h), keyConsts))
 }
